@@ -44,6 +44,18 @@ def check_iban(rec: Rec, text: str, origin: str, must_accept=True):
     for (a, e), k in spans:
         if not (0 <= a <= e <= len(bban)):
             rec.fail(f"out_of_bounds|{cc}", "fields_inside", inp, len(bban), [k, a, e])
+    # handing the object's own BBAN to other constructors must not alias / alter it (argument forms)
+    try:
+        from ..lib import BBAN
+        others = [c for c in ("IS", "DE", "GB", "FR") if c != cc][:2]
+        for oc in others:
+            BBAN(oc, iban.bban)
+            IBAN.from_bban(cc, iban.bban)
+        if getattr(iban.bban, "country_code", None) != cc or any(getattr(iban, k) != o.component(cc, bban, k) for k in COMPONENTS):
+            rec.fail("aliased_after_rewrap", "component_is_table_slice", {**inp, "rewrapped_as": others},
+                     {k: o.component(cc, bban, k) for k in COMPONENTS}, {k: getattr(iban, k) for k in COMPONENTS})
+    except Exception as e:  # noqa: BLE001
+        rec.fail(f"rewrap_raises|{type(e).__name__}", "from_bban_roundtrip", inp, "no effect", f"{type(e).__name__}: {e}")
     try:
         again = IBAN.from_bban(iban.country_code, iban.bban)
         if again != iban or str(again) != s or type(again) is not IBAN:
